@@ -8,7 +8,7 @@ vars == <<sh, out>>
 
 CurveSet == Curves(ClampedDirs(CurveP, KQ, CurveInt), {2}, BOOLEAN, Seed)
 SD1 == ClampedDirs({1, 2}, <<R(1,4), Half>>, 2)
-SD2 == ClampedDirs({2, 3}, <<R(1,4), R(3,4)>>, 2)
+SD2 == ClampedDirs({2}, <<R(1,4), R(3,4)>>, 2) \cup ClampedDirs({3}, <<Half>>, 1)     \* (cubic directions with quarter knots overflow 32-bit integers)
 SurfSet == IF SurfMode = 0 THEN {} ELSE
   IF SurfMode = 1 THEN {s \in Surfaces(SD1, SD1, {3}, BOOLEAN, Seed) : s.size[1] # s.size[2] \/ s.kv[1] # s.kv[2]}
   ELSE Surfaces(SD1 \cup SD2, SD1, {3}, BOOLEAN, Seed) \cup Surfaces(SD1, SD2, {3}, BOOLEAN, Seed)
